@@ -68,6 +68,7 @@ def calls_for(rng, tier):
             chunks = inject(chunks, k, kind, rng.randint(0, 3), n, symm)[:k + 1]
             fault.update({"at": k, "what": kind})
         calls.append({"dest": dest, "mode": mode, "n": n, "symm": symm, "chunks": chunks, "fault": fault,
+                      "id_dtype": rng.choice(["int64", "int64", "uint32", "uint64", "int32", "uint8"]),
                       "noslash": rng.random() < 0.3, "explicit_root": rng.random() < 0.5})
     return calls
 
@@ -95,7 +96,8 @@ def systematic():
                 for pos in range(len(base[k]) + 1):
                     ch = inject(base, k, kind, pos, n, symm)[:k + 1]
                     yield pre + [{"dest": dest, "mode": "a", "n": n, "symm": symm, "chunks": ch,
-                                  "fault": {"kind": "invalid", "at": k, "what": kind}, "noslash": False, "explicit_root": True}]
+                                  "fault": {"kind": "invalid", "at": k, "what": kind}, "noslash": False, "explicit_root": True,
+                                  "id_dtype": ["int64", "uint32", "uint64", "int32"][(k + pos) % 4]}]
         for k in range(len(base) + 1):
             F_k = gen.feat(102, k)          # independent feature choices per case (gen.feat)
             yield pre + [{"dest": dest, "mode": "a", "n": n, "symm": symm, "chunks": base[:k],
@@ -172,7 +174,7 @@ def cases(tier, seed):
         existing = [p for p in PATHS if p != dest and not (dest and p[:len(dest)] == dest) and rng.random() < 0.6]
         yield "cr.producer", {"paths": PATHS, "table": table, "mode": mode, "producer": prod, "px": px, "px2": px2,
                               "existing": existing, "dest": dest, "buf": rng.choice([1, 2, 10 ** 6]), "k": rng.choice([2, 3]),
-                              "fault": {"kind": fk, "at": rng.randint(0, 2)}}
+                              "fault": {"kind": fk, "at": rng.randint(0, 2), "what": rng.choice(["neg", "other", "other"])}}
 
 
 def run(tier, seed, only_case=None):
